@@ -21,12 +21,12 @@ fn helper() {
     let f: Vec<&str> = after.split(' ').collect(); // state ppid pgrp session
     let out = format!("argv={} pg={} sess={} cwd={} env={}\n", hxl(&args), f[2] != std::env::var("WX_PG").unwrap(), f[3] != std::env::var("WX_SESS").unwrap(),
         hx(std::env::current_dir().unwrap().as_os_str().as_bytes()), hx(std::env::var_os("WX_T").unwrap_or_default().as_bytes()));
-    std::fs::write(std::env::var_os("WX_OUT").unwrap(), out).unwrap();
+    std::fs::write(std::env::var_os("WX_HELPER_OUT").unwrap(), out).unwrap();
 }
 
 #[tokio::main(flavor = "current_thread")]
 async fn main() {
-    if std::env::var_os("WX_OUT").is_some() { return helper(); }
+    if std::env::var_os("WX_HELPER_OUT").is_some() { return helper(); }
     let seed: u64 = std::env::args().nth(1).and_then(|s| s.parse().ok()).unwrap_or(1);
     let n: usize = std::env::args().nth(2).and_then(|s| s.parse().ok()).unwrap_or(1000);
     let nspawn: usize = std::env::args().nth(3).and_then(|s| s.parse().ok()).unwrap_or(50);
@@ -65,16 +65,15 @@ async fn main() {
         if sp.has_wrap::<ProcessSession>() { w.push("S") }
         if sp.has_wrap::<ProcessGroup>() { w.push("G") }
         if sp.has_wrap::<ResetSigmask>() { w.push("R") }
-        writeln!(cases, "{line}").unwrap();
-        writeln!(outs, "argv={} wraps={}", hxl(&argv), w.join(",")).unwrap();
+        let mut oracle = String::new();
         if real {
             // through the real Job: spawn hook sets env + cwd; helper reports what it saw
-            let outp = format!("/tmp/wxh2/helper_out_{i}");
+            let outp = out(&format!("helper_out_{i}"));
             let _ = std::fs::remove_file(&outp);
             let envv = s(&mut r);
             let (job, task) = start_job(cmd.clone());
             let (o2, e2, me2, pg2, ss2) = (outp.clone(), envv.clone(), me.clone(), mypg.clone(), mysess.clone());
-            job.set_spawn_hook(move |c, _| { c.command_mut().env("WX_OUT", &o2).env("WX_T", &e2).env("WX_HELPER", &me2).env("WX_PG", &pg2).env("WX_SESS", &ss2).current_dir("/usr"); }).await;
+            job.set_spawn_hook(move |c, _| { c.command_mut().env("WX_HELPER_OUT", &o2).env("WX_T", &e2).env("WX_HELPER", &me2).env("WX_PG", &pg2).env("WX_SESS", &ss2).current_dir("/usr"); }).await;
             job.start().await;
             job.to_wait().await;
             let rep = std::fs::read_to_string(&outp).unwrap_or_default();
@@ -82,8 +81,10 @@ async fn main() {
             // expected from the same source of truth as the model line: helper's argv = argv minus program (exec) or extra args incl $0 (shell)
             let exp_args: Vec<std::ffi::OsString> = if is_shell { if argv.len() > 3 { argv[3..].to_vec() } else { vec!["sh".into()] } } else { argv[1..].to_vec() };
             let exp = format!("argv={} pg={} sess={} cwd={} env={}\n", hxl(&exp_args), opts.session || opts.grouped, opts.session, hx(b"/usr"), hx(envv.as_bytes()));
-            if rep != exp { println!("SPAWN MISMATCH case {i}\n impl {rep} exp  {exp}"); }
+            if rep != exp { oracle = format!("spawned child saw {} but the command says {}", rep.trim(), exp.trim()); }
             drop(job); task.abort();
         }
+        writeln!(cases, "{line}").unwrap();
+        writeln!(outs, "argv={} wraps={}{}", hxl(&argv), w.join(","), if oracle.is_empty() { String::new() } else { format!("\t!{oracle}") }).unwrap();
     }
 }
